@@ -34,8 +34,13 @@ type Change struct {
 	Proj int    `json:"proj"`
 }
 type Op struct {
-	Kind string `json:"kind"` // StartW StepW StartS StepS E
+	Kind string `json:"kind"` // StartW StepW StartS StepS E | history steps (hist.go): set del ns_set ns_del
 	R    int    `json:"r,omitempty"`
+	// history steps only
+	Ns    int  `json:"ns,omitempty"`
+	Name  int  `json:"name,omitempty"`
+	Proj  int  `json:"proj,omitempty"`
+	Label bool `json:"label,omitempty"`
 }
 type Input struct {
 	Types   []string `json:"types,omitempty"` // event types the binding listens to
@@ -50,6 +55,9 @@ type Input struct {
 	// Op (optional): an operator-level scenario (internal/opsim): several kubernetes bindings
 	// per hook, Synchronizations failing and succeeding, events of unlocked monitors
 	Op *opsim.Scenario `json:"op,omitempty"`
+	// Hist (optional): a binding with namespace.labelSelector over a history of namespaces and
+	// objects (hist.go); the history is Ops
+	Hist *HistIn `json:"hist,omitempty"`
 }
 
 type Ev struct {
@@ -68,6 +76,7 @@ type View struct {
 type Obs struct {
 	Mon        *MonitorObs `json:"mon,omitempty"`
 	Op         *opsim.Trace `json:"op,omitempty"`
+	Hist       *HistObs    `json:"hist,omitempty"`
 	Out        []Ev        `json:"out"`
 	Views      []View      `json:"views"`
 	Cache      []Pair      `json:"cache"`
@@ -128,6 +137,11 @@ func Run(in Input) Obs {
 	if in.Monitor != nil {
 		m := RunMonitor(*in.Monitor)
 		o.Mon = &m
+		return o
+	}
+	if in.Hist != nil {
+		h := RunHist(*in.Hist, in.Ops)
+		o.Hist = &h
 		return o
 	}
 	log.SetDefaultLevel(log.LevelFatal)
@@ -396,6 +410,13 @@ func Render(in Input, obs *Obs, crash string) core.Case {
 		}
 		return RenderMonitor(*in.Monitor, m, crash)
 	}
+	if in.Hist != nil {
+		var h *HistObs
+		if obs != nil {
+			h = obs.Hist
+		}
+		return RenderHist(*in.Hist, in.Ops, h, crash)
+	}
 	var o Obs
 	if obs != nil {
 		o = *obs
@@ -604,6 +625,7 @@ func Gen(r *core.Rng, tier string) ([]core.In[Input], bool) {
 		sc := opsim.Scenario{Cfg: opsim.GenConfig(r, opProfile), Seed: int64(r.Next() >> 1), Steps: 10 + r.Intn(opProfile.Steps), Profile: "c01op"}
 		ins = append(ins, core.In[Input]{Input: Input{Op: &sc}, Stream: "operator"})
 	}
+	var rnd []core.In[Input]
 	for i := 0; i < n; i++ {
 		nc := 2 + r.Intn(7)
 		foreign := i%10 == 9
@@ -612,13 +634,48 @@ func Gen(r *core.Rng, tier string) ([]core.In[Input], bool) {
 		if foreign {
 			st = "trigger-F23"
 		}
-		ins = append(ins, core.In[Input]{Input: in, Stream: st})
+		rnd = append(rnd, core.In[Input]{Input: in, Stream: st})
 	}
+	// namespace.labelSelector over histories of namespaces and objects (hist.go), from a PRNG of
+	// their own; the slow cases are spread evenly over the list (each worker gets a contiguous slice)
+	hr := r.Fork()
+	hists := histCorpus()
+	nh := 56
+	switch tier {
+	case "thorough":
+		nh = 2500
+	case "search":
+		nh = 400
+	}
+	for i := 0; i < nh; i++ {
+		brought := i%8 == 7
+		hin, hops := genHist(hr, 6+hr.Intn(14), brought)
+		st := "hist"
+		if brought {
+			st = "hist-brought-along"
+		}
+		hists = append(hists, core.In[Input]{Input: Input{Hist: &hin, Ops: hops}, Stream: st})
+	}
+	if tier == "thorough" {
+		hists = append(hists, histExhaustive(4)...)
+	}
+	every := len(rnd) / len(hists)
+	if every < 1 {
+		every = 1
+	}
+	for i, c := range rnd {
+		if i%every == 0 && len(hists) > 0 {
+			ins = append(ins, hists[0])
+			hists = hists[1:]
+		}
+		ins = append(ins, c)
+	}
+	ins = append(ins, hists...)
 	return ins, false
 }
 
 var Driver = core.Driver[Input, Obs]{
-	Spec: core.Spec{Property: "C01", Imports: []string{"Op_Model", "Op_Corr", "C01_Model", "C01_Spec", "C01_Monitor", "C01_Corr"}, Corr: "C01_Corr", Triggers: []string{"F23", "F24"}, ShrinkKey: "ops",
-		Rule: "a real resourceInformer (locked, not connected to a cluster) driven by the informer callback (per-object histories over 3 objects x 4 states with re-deliveries, deletes, re-creations), Synchronization reads (repeated), foreign readers and the unlock, interleaved deterministically at lock granularity through verifpoint marks; every subset family of event types; 10% of the schedules let a foreign reader read a locked binding (trigger F23); non-trivial = >=2 changes, a Synchronization read, the unlock and >=1 delivered event; distinct = distinct (types, changes, schedule)"},
+	Spec: core.Spec{Property: "C01", Imports: []string{"Op_Model", "Op_Corr", "C01_Model", "C01_Spec", "C01_Monitor", "C01_Hist", "C01_HistSpec", "C01_Corr"}, Corr: "C01_Corr", Triggers: []string{"F23", "F24"}, ShrinkKey: "ops",
+		Rule: "a real resourceInformer (locked, not connected to a cluster) driven by the informer callback (per-object histories over 3 objects x 4 states with re-deliveries, deletes, re-creations), Synchronization reads (repeated), foreign readers and the unlock, interleaved deterministically at lock granularity through verifpoint marks; every subset family of event types; 10% of the schedules let a foreign reader read a locked binding (trigger F23); non-trivial = >=2 changes, a Synchronization read, the unlock and >=1 delivered event; distinct = distinct (types, changes, schedule); class hist: a real monitor with namespace.labelSelector (real namespace informer, fake cluster) after Start and the unlock follows histories of object set/delete and namespace create/relabel/delete over 3 namespaces x 3 names (start-up namespaces and late ones stop matching and match again; event-type subsets, jqFilter, nameSelector), the KubeEvents handed over are compared per object (client-go's DeltaFIFO fixes no other order) with C01_Hist and judged per object by C01_HistSpec.HP; one history in 8 lets namespaces bring objects along (trigger F24); non-trivial there = >=1 namespace operation, >=2 object changes, >=1 event"},
 	Gen: Gen, Run: Run, Render: Render, PerShard: 400, Workers: 8, CaseTimout: 30 * time.Second,
 }
